@@ -11,7 +11,7 @@
 From Coq Require Import Reals ZArith List Bool Lra Lia.
 From Flocq Require Import Core.Raux.
 From CB Require Import Base.Vec3 Model.C03_Relations Proofs.C03_GeomSeries Proofs.C03_Relations
-  Proofs.C03_Plans Proofs.C03_Invert.
+  Proofs.C03_Plans Proofs.C03_Invert Proofs.C03_InvertPlans.
 From CB Require Import Gen.C03.RelTable.
 Import ListNotations.
 Open Scope R_scope.
@@ -197,39 +197,42 @@ Proof.
   replace (INR (Z.to_nat 10)) with 10 in H by (simpl; lra). lra.
 Qed.
 
-(** inversion.  Full statement: for every plan, calculate L (invert c) = (n, 1/E) when
-    calculate L c = (n, E), and the cells are those of c read backwards. *)
+(** inversion.  Full statement: for every pair of parameters, calculate L (invert c) = (n, 1/E) when
+    calculate L c = (n, E) (and the cells are those of c read backwards). *)
 Definition C03_invert_stmt : Prop :=
-  forall tau bq L d n E, brentq_sound bq -> 0 < tau ->
-  calculate tau bq L rel_table d = Some (mk_data (Some n) (Some E) (d_c2c d) (d_start d) (d_end d)) ->
-  exists d', calculate tau bq L rel_table (invert d) = Some d' /\ returned d' = Some (n, / E).
+  forall tau bq L d res n E, brentq_sound bq -> 0 < tau -> n_given d = 2%nat ->
+  calculate tau bq L rel_table d = Some res -> returned res = Some (n, E) ->
+  exists res', calculate tau bq L rel_table (invert d) = Some res' /\ returned res' = Some (n, / E).
 
-(** proved part: the cell sequence; the four pairs made of closed forms; for the brentq relations the
-    defining equations are mirror images with a unique solution (so a sound oracle returns 1/r resp. the
-    same real root).  Missing: assembling the brentq plans (needs the oracle's totality on the mirrored
-    input) and ratios inside the tolerance band, where |r-1| > TOL and |1/r-1| > TOL can disagree. *)
+(** proved part:
+    (1) the cell sequence of (n, 1/E) is the reverse of that of (n, E);
+    (2) the five pairs made of closed forms - (count,c2c) (count,total) (start,c2c) (end,c2c) (total,c2c):
+        the inverted chop is accepted and returns (n, 1/E), for ratios that are 1 or outside the tolerance band
+        together with their reciprocal ([band_ok]);
+    (3) (count,start) and (count,end), whose ratio comes from brentq: for every sound oracle, whenever the
+        mirrored call is answered too, same count and reciprocal expansion (the two defining equations are mirror
+        images and have one solution);
+    (4) (total,start) (total,end) (start,end), whose count comes from brentq: the mirrored defining equation
+        has the same root, roots > 1 are unique, and the near-uniform branch sees the same smallest cell - so
+        every sound oracle rounds the same real number.
+    Missing: totality of the oracle on the mirrored input (3, 4), the assembly of (4) into the three plans,
+    ratios inside the tolerance band (|r-1| <= TOL < |1/r-1| is possible), and the single cell: count = 1 with
+    start_size < L is accepted while its inverse (count = 1, end_size) raises - a finding, see notes/C03.md. *)
 Definition C03_invert_partial_stmt : Prop :=
   (forall L n E, 0 < E -> bm_cells L n (/ E) = rev (bm_cells L n E)) /\
-  (forall tau L v r, 0 <= tau -> 0 < v -> 0 < r -> tau < Rabs (r - 1) -> tau < Rabs (/ r - 1) ->
-     count_end_c2c tau L v (/ r) = count_start_c2c tau L v r) /\
-  (forall tau L v, 0 < v -> 0 <= tau -> count_end_c2c tau L v (/ 1) = count_start_c2c tau L v 1) /\
-  (forall L n r, r <> 0 -> total_count_c2c L n (/ r) = option_map Rinv (total_count_c2c L n r)) /\
-  (forall L n E, 0 < E -> c2c_count_total L n (/ E) = option_map Rinv (c2c_count_total L n E)) /\
-  (forall s L r k, 0 < r -> (1 <= k)%nat -> s * gsum r k = L -> s * gsum (/ r) k = L * (/ r) ^ (k - 1)) /\
-  (forall s L r r' k, 0 < s -> 0 < r -> 0 < r' -> (2 <= k)%nat ->
-     s * gsum r k = L -> s * gsum r' k = L * r' ^ (k - 1) -> r' = / r) /\
-  (forall L E s x, 0 < E -> E <> 1 -> x <> 1 -> 0 < s -> Gcode x E = L / s -> Gcode x (/ E) = L / (s * E)).
+  invert_closed_law rel_table /\
+  invert_oracle_law rel_table /\
+  (forall L E s x x', 0 < E -> E <> 1 -> 0 < s -> 1 < x -> 1 < x' ->
+     Gcode x E = L / s -> Gcode x' (/ E) = L / (s * E) -> x' = x) /\
+  (forall E s, 0 < E -> E <> 1 -> d_min (/ E) (s * E) = d_min E s).
 Theorem C03_invert_partial : C03_invert_partial_stmt.
 Proof.
-  repeat split.
+  split; [|split; [|split; [|split]]].
   - intros. apply bm_cells_rev; assumption.
-  - intros. apply count_end_start_inv; assumption.
-  - intros. apply count_end_start_inv_uniform; assumption.
-  - intros. apply total_count_c2c_inv; assumption.
-  - intros. apply c2c_count_total_inv; assumption.
-  - intros. apply c2c_spec_mirror; assumption.
-  - intros s L r r' k Hs Hr Hr' Hk H1 H2. exact (c2c_spec_mirror_unique s L r r' k Hs Hr Hr' Hk H1 H2).
-  - intros. apply count_spec_mirror; assumption.
+  - exact (invert_closed rel_table C03_calculate_is_plan).
+  - exact (invert_oracle rel_table C03_calculate_is_plan).
+  - exact count_root_mirror_unique.
+  - exact d_min_mirror.
 Qed.
 
 (** Grading.inverted: an involution that reverses blockMesh's cell sequence *)
@@ -279,6 +282,12 @@ Example brentq_sound_example : brentq_sound (Build_brentq (fun _ _ _ => None) (f
 Proof. repeat split; intros; simpl in *; discriminate. Qed.
 Example TOL_pos : 0 < TOL.
 Proof. unfold TOL, dy. apply Rmult_lt_0_compat; [apply IZR_lt; reflexivity|apply powerRZ_lt; lra]. Qed.
+Example band_ok_example : band_ok TOL 1 /\ band_ok (1/10) 2.
+Proof.
+  split; [left; reflexivity|right]. split.
+  - replace (2 - 1) with 1 by ring. rewrite Rabs_R1. lra.
+  - replace (/ 2 - 1) with (- (1 / 2)) by field. rewrite Rabs_Ropp, Rabs_pos_eq; lra.
+Qed.
 Example plan_count_c2c_runs : exists d, plan_count_c2c TOL 1 10 1 = Some d.
 Proof.
   unfold plan_count_c2c, start_count_c2c, total_count_c2c, end_start_total, valid_length.
